@@ -41,9 +41,10 @@ TStep ==
               /\ e.err = last'.err /\ e.errIdx = last'.idx - 1 /\ e.committed = last'.committed
               /\ e.pending = Pending
         [] e.ev = "Commit" ->
-              /\ e.written = Len(mem)
+              /\ (Has(e, "written") => e.written = Len(mem))
               /\ IF mem = <<>> THEN UNCHANGED <<d, req, reqd, queue, flight, mem, db, faults, last>> ELSE Commit
               /\ DestOk(e) /\ e.pending = Pending
+        [] e.ev = "CommitFail" -> CommitFail(e.args.j) /\ e.written = e.args.j /\ DestOk(e) /\ e.pending = Pending
         [] e.ev = "CommitCrash" -> Crash(e.args.j) /\ e.written = e.args.j /\ DestOk(e) /\ e.pending = Pending
         [] e.ev = "Interrupt" -> Crash(0) /\ DestOk(e) /\ e.pending = Pending
         [] e.ev = "Finish" -> Finish /\ DestOk(e) /\ e.pending = 0 /\ ~Has(e, "err")
